@@ -103,6 +103,19 @@ def make_function(name: str, fspec: Dict[str, Any], env: Any = None, graves: Opt
             raise ProbeFault(f"{name} call {self.calls}")
         if behav == "poke" and REENTRY_HOOK is not None:
             REENTRY_HOOK()
+        if behav == "reenter_same" and self.env is not None and not getattr(self, "_busy", False):
+            # a complete nested evaluation of the compiled query most recently compiled on this
+            # environment -- possibly the very one that is calling this function now.  Its result is
+            # not used (so the function's value does not depend on what "most recently" means)
+            last = getattr(self.env, "_sim_last", None)
+            if last is not None:
+                self._busy = True
+                try:
+                    list(last.find(fspec.get("rdoc", [{"a": 0, "b": 5}, {"a": 7, "b": 0}, {"a": 0, "b": 0}])))
+                except Exception:  # noqa: BLE001
+                    pass
+                finally:
+                    self._busy = False
         if behav == "reenter" and self.env is not None:
             # a complete nested evaluation on the same environment in the middle of this one
             n = len(self.env.find(fspec.get("rq", "$..a"), fspec.get("rdoc", {"a": [{"a": 1}, 2], "b": {"a": 3}})))
@@ -304,6 +317,14 @@ def outcome_of_call(fn: Any, entry: str, doc_root: Any = None, keep: Optional[Li
     return {"nodes": nodes, "end": end, "ident": ident}
 
 
+def remember_compiled(env: Any, compiled: Any) -> None:
+    """What "reenter_same" probe functions re-enter (see make_function)."""
+    try:
+        env._sim_last = compiled
+    except Exception:  # noqa: BLE001
+        pass
+
+
 def solitary(spec: Dict[str, Any]) -> Dict[str, Any]:
     """The one call of *spec*, performed on its own in this (pristine) process."""
     env = make_env(spec["env"])
@@ -321,6 +342,7 @@ def solitary(spec: Dict[str, Any]) -> Dict[str, Any]:
             compiled = env.compile(q)
         except Exception as exc:  # noqa: BLE001
             return {"nodes": [], "end": "compile:" + type(exc).__name__, "ident": True}
+        remember_compiled(env, compiled)
     return outcome_of_call(lambda: call(env, compiled, q, doc, entry, form), entry, doc)
 
 
